@@ -40,6 +40,8 @@ structure Dev where
   wlog : List (Nat × Block) := []
   /-- device reads so far, newest first -/
   rlog : List Nat := []
+  /-- ghost: number of device calls that failed so far (never read by the model; C11 is stated over it) -/
+  failed : Nat := 0
   deriving Inhabited
 
 /-- `BlockCache`: `block_idx` and `block[0]`. -/
@@ -90,7 +92,7 @@ def devRead (idx : Nat) : F Unit := fun s =>
   let d := s.dev
   let d' := { d with calls := d.calls + 1, rlog := idx :: d.rlog }
   if d.faults.contains d.calls then
-    (.err .DeviceError, { s with dev := d', cache := { s.cache with blk := scribbleBlock } })
+    (.err .DeviceError, { s with dev := { d' with failed := d.failed + 1 }, cache := { s.cache with blk := scribbleBlock } })
   else
     (.ok (), { s with dev := d', cache := { s.cache with blk := d.disk.get idx } })
 
@@ -98,7 +100,7 @@ def devRead (idx : Nat) : F Unit := fun s =>
 def devWrite (idx : Nat) : F Unit := fun s =>
   let d := s.dev
   if d.faults.contains d.calls then
-    (.err .DeviceError, { s with dev := { d with calls := d.calls + 1 } })
+    (.err .DeviceError, { s with dev := { d with calls := d.calls + 1, failed := d.failed + 1 } })
   else
     (.ok (), { s with dev := { d with calls := d.calls + 1, disk := d.disk.set idx s.cache.blk,
                                       wlog := (idx, s.cache.blk) :: d.wlog } })
